@@ -74,19 +74,30 @@ theorem trTop_assign_cases {all : List String} {x : String} {e : Expr} {acc acc1
       · cases h
         right; rfl
 
-/-- bookkeeping invariant of the accumulator -/
-def Inv (acc : TopAcc) : Prop :=
+/-- bookkeeping invariant of the accumulator; `P` is what is known of every global's initialiser -/
+def InvP (P : Expr → Prop) (acc : TopAcc) : Prop :=
   acc.te = acc.globals.reverse.map (fun g => (g.1, g.2.1)) ∧
-  (∀ g ∈ acc.globals, g.2.2.nameFree = true) ∧
+  (∀ g ∈ acc.globals, P g.2.2) ∧
   acc.globals.Pairwise (fun a b => a.1 ≠ b.1)
+
+/-- for C01: the initialisers are `GoodInit` (the fragment check makes them well typed) -/
+abbrev Inv (acc : TopAcc) : Prop := InvP GoodInit acc
+
+/-- what holds without any typing assumption (used by C06) -/
+def NameFree (e : Expr) : Prop := e.nameFree = true
 
 theorem defaultOf_nameFree (t : Ty) : (defaultOf t).nameFree = true := by cases t <;> rfl
 
-theorem facts_new {acc : TopAcc} {x : String} {t : Ty} {e' : Expr} (l : List Stmt)
-    (hl : acc.te.lookup x = none) (hnf : e'.nameFree = true) :
+theorem defaultOf_good (t : Ty) : GoodInit (defaultOf t) := by
+  cases t
+  · exact ⟨rfl, rfl, _, rfl⟩
+  · exact ⟨rfl, rfl, _, rfl⟩
+
+theorem facts_new {P : Expr → Prop} {acc : TopAcc} {x : String} {t : Ty} {e' : Expr} (l : List Stmt)
+    (hl : acc.te.lookup x = none) (hnf : P e') :
     Sub acc.te (acc.te ++ [(x, t)]) ∧
     (∀ y, ((acc.te ++ [(x, t)]).lookup y).isSome = true → (acc.te.lookup y).isSome = true ∨ y ∈ [x]) ∧
-    (Inv acc → Inv { globals := (x, t, e') :: acc.globals, te := acc.te ++ [(x, t)], setup := l }) := by
+    (InvP P acc → InvP P { globals := (x, t, e') :: acc.globals, te := acc.te ++ [(x, t)], setup := l }) := by
   refine ⟨fun y ty hy => lookup_append_of_some _ hy, ?_, ?_⟩
   · intro y hy
     cases hy' : acc.te.lookup y with
@@ -151,11 +162,11 @@ theorem trTop_facts (all : List String) (s : Stmt) : ∀ (acc acc1 : TopAcc) (te
     obtain ⟨hwt, hc⟩ := trTop_assign_cases h2 h
     rcases hc with ⟨hl, rfl, rfl⟩ | ⟨hl, rfl, hc⟩
     · exact ⟨rfl, Sub_refl _, fun g hg => hg, fun x hx => .inl hx, fun h => h, [_], rfl⟩
-    · rcases hc with ⟨hnf, _, rfl⟩ | rfl
-      · obtain ⟨f1, f2, f3⟩ := facts_new (t := inferTy acc.te e) acc.setup hl hnf
+    · rcases hc with ⟨hnf, hcs, rfl⟩ | rfl
+      · obtain ⟨f1, f2, f3⟩ := facts_new (P := GoodInit) (t := inferTy acc.te e) acc.setup hl (goodInit_of_const hnf hwt hcs)
         exact ⟨rfl, f1, fun g hg => List.mem_cons_of_mem _ hg, f2, f3, [], rfl⟩
-      · obtain ⟨f1, f2, f3⟩ := facts_new (t := inferTy acc.te e) (Stmt.assign x e :: acc.setup) hl
-          (defaultOf_nameFree (inferTy acc.te e))
+      · obtain ⟨f1, f2, f3⟩ := facts_new (P := GoodInit) (t := inferTy acc.te e) (Stmt.assign x e :: acc.setup) hl
+          (defaultOf_good (inferTy acc.te e))
         exact ⟨rfl, f1, fun g hg => List.mem_cons_of_mem _ hg, f2, f3, [_], rfl⟩
   | _ =>
     intro acc acc1 te1 h2 h
